@@ -107,29 +107,44 @@ def full_space():
         yield _case("generate_sdmx", script_kind=sk, outcome=oc)
 
 
-QUICK_RULE = ("quick = the sub-lattice of the full space with (a) value_domains and external_routines given in the same "
-              "shape (none/none, dict/dict, list/list, path/path) instead of the 4x4 product, and (b) for run and run_sdmx "
-              "the script given as str, except that every script kind is still crossed with every outcome, "
-              "data_structures kind and mappings kind on the base configuration (dict-frames, native-default frame, no "
-              "libraries, no scalar values); semantic_analysis, validate_dataset, prettify and generate_sdmx are "
-              "complete in both tiers")
+QUICK_RULE = ("quick = a sub-lattice of the full space: semantic_analysis, validate_dataset, prettify and generate_sdmx are "
+              "complete; run = [every (datapoints kind, frame variant) x every outcome x data_structures in {dict, json-path} "
+              "with str script, no libraries, no scalar values] + [every data_structures kind x libraries in the same shape "
+              "(none/dict/list/path) x scalar_values x every outcome on the base datapoints (dict of native-default frames)] "
+              "+ [script kinds vtl-path and transformation-scheme x every data_structures kind x every outcome on the base]; "
+              "run_sdmx = [every frame variant x mappings kind x outcome, str script, no libraries] + [every script kind x "
+              "mappings kind x same-shape libraries x outcome on the native-default frame]. thorough = the full product; "
+              "the quick sub-lattice is executed first and always completely, the remainder under a wall-clock budget "
+              "(VTLMC_C22_BUDGET_S, default 1500 s; 0 = no limit) - cases skipped because of the budget are counted and "
+              "make the run non-exhaustive")
 
 
 def in_quick(c):
     fn = c["fn"]
     if fn in ("validate_dataset", "prettify", "generate_sdmx", "semantic_analysis"):
         return True
-    if c["script_kind"] != "str":
-        return (c["dp"] in ("dict-frames", "-") and c["fv"] == "native-default" and c["vd"] == "none" and c["er"] == "none"
-                and c["sv"] in ("none", "-"))
-    return c["vd"] == c["er"]
+    nolib = c["vd"] == "none" and c["er"] == "none"
+    if fn == "run":
+        base_dp = c["dp"] == "dict-frames" and c["fv"] == "native-default"
+        if c["script_kind"] == "str":
+            if nolib and c["sv"] == "none" and c["ds"] in ("dict", "json-path"):
+                return True
+            return base_dp and c["vd"] == c["er"]
+        return base_dp and nolib and c["sv"] == "none"
+    if fn == "run_sdmx":
+        if c["script_kind"] == "str" and nolib:
+            return True
+        return c["fv"] == "native-default" and c["vd"] == c["er"]
+    raise ValueError(fn)
 
 
 def space(tier):
+    """-> (cases that are always executed, cases executed under the budget)"""
     cases = list(full_space())
+    first = [c for c in cases if in_quick(c)]
     if tier == "quick":
-        cases = [c for c in cases if in_quick(c)]
-    return cases
+        return first, []
+    return first, [c for c in cases if not in_quick(c)]
 
 
 def case_id(c):
@@ -272,7 +287,10 @@ def has_scalars(c):
 
 
 def make_script(c, workdir):
-    text = script_text(c["outcome"], has_scalars(c) if c["fn"] in ("run", "semantic_analysis") else False,
+    oc = c["outcome"]
+    if c["fn"] == "run_sdmx" and oc == "load-error":
+        oc = "success"      # a single PandasDataset: its own frame carries the duplicate identifier
+    text = script_text(oc, has_scalars(c) if c["fn"] in ("run", "semantic_analysis") else False,
                        c["vd"] not in ("none", "-"), c["er"] not in ("none", "-"))
     sk = c["script_kind"]
     if sk == "str":
